@@ -65,6 +65,9 @@ contract(T + ".tick", "C09", requires=["cost >= 0"], raises=[], callbacks=CB, op
              "shortens-by-cost": "implies(old(self)._phase != LifecyclePhase.APOPTOTIC and old(self)._phase != LifecyclePhase.TERMINATED, "
                                  "self._telomere_length == max(0, old(self)._telomere_length - cost))",
              "depletion-forces-senescence": "implies(self._telomere_length == 0, self._phase != LifecyclePhase.ACTIVE and self._phase != LifecyclePhase.NASCENT)",
+             # the idle limit is measured from the last operation: a counted tick is activity
+             "a-counted-tick-is-activity": "implies(old(self)._phase != LifecyclePhase.APOPTOTIC and old(self)._phase != LifecyclePhase.TERMINATED, "
+                                           "self._last_activity is not None and clock_first() <= self._last_activity and self._last_activity <= clock_last())",
          })
 
 contract(T + ".record_error", "C09", raises=[], callbacks=CB, options=OPT, ghost_exit=KEEP,
@@ -93,6 +96,7 @@ contract(T + ".check_timeouts", "C09", raises=[], callbacks=CB, options=OPT, gho
                                        "and old(self)._last_activity is not None and clock_first() - old(self)._last_activity >= self.idle_timeout, "
                                        "self._phase == LifecyclePhase.SENESCENT and result is False)",
              "length-unchanged": "self._telomere_length == old(self)._telomere_length",
+             "within-its-limits-reports-active": "implies(self._phase == LifecyclePhase.ACTIVE, result is True)",
          })
 
 contract(T + ".renew", "C09", requires=["amount is None or amount >= 0"], params={"amount": "opt:int"},
